@@ -198,6 +198,49 @@ PATTERN_SEEDS = [
 IFF_SEEDS = [b"f1", b"not f1", b"f1 and f2", b"(f1 or f2) and not (f1 and f2)", b"not (not f1)", b"f1 or f2 and f1"]
 
 
+def block_names():
+    """names of the XML Schema Unicode blocks the pattern rewrite knows (ublock2urange of src/schema_compile_node.c)"""
+    try:
+        src = open(os.path.join(vlib.REPO, "src", "schema_compile_node.c"), "rb").read()
+        a = src.index(b"ublock2urange[][2]")
+        names = re.findall(rb'\{"([A-Za-z0-9-]+)", "\[', src[a:a + 12000])
+        return names or [b"BasicLatin", b"Greek", b"Lao", b"Thai"]
+    except (OSError, ValueError):
+        return [b"BasicLatin", b"Greek", b"Lao", b"Thai"]
+
+
+# documents with exactly ONE defect of each kind in otherwise valid data: with LYD_VALIDATE_MULTI_ERROR the parser goes on
+# after the defect and the rest validates, the call still has to fail as a whole and hand nothing back
+def one_error_docs():
+    X = lambda body: b'<top xmlns="urn:rb"><name>abc</name>' + body + b'</top>'      # noqa: E731
+    J = lambda body: b'{"rb:top":{"name":"abc"' + body + b'}}'                          # noqa: E731
+    xml = {
+        "bad-int": X(b"<count>x</count>"), "bad-range": X(b"<pair><a>k</a><b>1</b><v>101</v></pair>"),
+        "bad-pattern": b'<top xmlns="urn:rb"><name>ABC</name></top>', "bad-leaflist": X(b"<item><id>70000</id></item>"),
+        "bad-bool": X(b"<item><id>1</id><inner><flag>maybe</flag></inner></item>"), "bad-dec": X(b"<item><id>1</id><inner><d>1.234</d></inner></item>"),
+        "bad-enum": b'<types xmlns="urn:rb"><en>nope</en></types>', "bad-bits": b'<types xmlns="urn:rb"><bits>one one</bits></types>',
+        "bad-idref": b'<types xmlns="urn:rb"><idref>none</idref></types>', "bad-union": b'<types xmlns="urn:rb"><un>-200</un></types>',
+        "unknown-elem": X(b"<nope>1</nope>"), "unknown-ns": X(b'<nope xmlns="urn:none">1</nope>'), "missing-key": X(b"<item><val>x</val></item>"),
+        "dup-list": X(b"<item><id>1</id></item><item><id>1</id></item>"), "dup-leaf": X(b"<count>1</count><count>2</count>"),
+        "dangling-leafref": X(b"<item><id>1</id><ref>zzz</ref></item>"), "must-false": X(b"<pres><must-leaf>250</must-leaf></pres>"),
+        "when-false": X(b"<pres><must-leaf>1</must-leaf><w>w</w></pres>"), "two-cases": X(b"<x1>a</x1><x2>b</x2>"),
+        "state-data": X(b"<state>s</state>"), "bad-meta": X(b'<tag xmlns:yang="urn:ietf:params:xml:ns:yang:1" yang:insert="nowhere">t</tag>'),
+        "text-in-container": X(b"<pres>text</pres>"), "child-in-leaf": X(b"<count><x/></count>"), "key-order": X(b"<pair><b>1</b><a>k</a></pair>"),
+    }
+    js = {
+        "bad-int": J(b',"count":"x"'), "bad-range": J(b',"pair":[{"a":"k","b":1,"v":101}]'), "bad-pattern": b'{"rb:top":{"name":"ABC"}}',
+        "bad-leaflist": J(b',"item":[{"id":70000}]'), "bad-bool": J(b',"item":[{"id":1,"inner":{"flag":"maybe"}}]'),
+        "bad-dec": J(b',"item":[{"id":1,"inner":{"d":"1.234"}}]'), "bad-enum": b'{"rb:types":{"en":"nope"}}', "bad-bits": b'{"rb:types":{"bits":"one one"}}',
+        "bad-idref": b'{"rb:types":{"idref":"none"}}', "bad-union": b'{"rb:types":{"un":-200}}', "unknown-member": J(b',"nope":1'),
+        "unknown-module": J(b',"none:nope":1'), "missing-key": J(b',"item":[{"val":"x"}]'), "dup-list": J(b',"item":[{"id":1},{"id":1}]'),
+        "dangling-leafref": J(b',"item":[{"id":1,"ref":"zzz"}]'), "must-false": J(b',"pres":{"must-leaf":250}'),
+        "when-false": J(b',"pres":{"must-leaf":1,"w":"w"}'), "two-cases": J(b',"x1":"a","x2":"b"'), "state-data": J(b',"state":"s"'),
+        "wrong-kind": J(b',"item":{"id":1}'), "number-for-string": J(b',"tag":[1]'), "bad-meta": J(b',"@count":{"rb:nope":1},"count":1'),
+        "leaf-as-object": J(b',"count":{"x":1}'), "wrong-exp-number": J(b',"count":0.5E0'),
+    }
+    return xml, js
+
+
 def repo_seed_modules():
     out = []
     for d in ("tests/modules/yang", "models"):
@@ -355,6 +398,7 @@ class Robust:
 
     def __init__(self):
         self.labels = {}
+        self.second = {}
 
     def n(self, tier, quick, thorough, scale=1.0):
         return max(1, int((thorough if tier == "thorough" else quick) * scale))
@@ -490,6 +534,21 @@ class Robust:
             A(out, "seed-pattern", L("pattern", hexs(p), hexs(s)))
             A(out, "seed-modpattern", L("yang", hexs(b"module p {namespace urn:p; prefix p; leaf l {type string {pattern " + yang_dq(p) + b";}}}")))
 
+        # ---------- one defect per document x parser options x validation options (deterministic) ----------
+        xml1, js1 = one_error_docs()
+        for fm, docs in (("x", xml1), ("j", js1)):
+            for kind, doc in docs.items():
+                for po in (PARSE_STRICT, PARSE_OPAQ, 0, PARSE_ONLY | PARSE_STRICT, PARSE_NO_STATE | PARSE_STRICT, PARSE_ORDERED | PARSE_STRICT):
+                    for vo in (VAL_PRESENT, VAL_MULTI | VAL_PRESENT, VAL_MULTI | VAL_NO_STATE):
+                        A(out, "one-error:%s" % kind, L("data", fm, po, vo, hexs(doc)))
+        # ---------- every Unicode block escape of the pattern rewrite, outside and inside a character class ----------
+        for bn in block_names():
+            for pat in (b"\\p{Is" + bn + b"}", b"a\\p{Is" + bn + b"}+b", b"[\\p{Is" + bn + b"}]", b"[^x\\p{Is" + bn + b"}-]*", b"\\P{Is" + bn + b"}?",
+                        b"\\p{Is" + bn + b"}\\p{Is" + bn + b"}", b"(\\p{Is" + bn + b"}|[\\P{Is" + bn + b"}])"):
+                A(out, "block-pattern", L("pattern", hexs(pat), hexs(b"a")))
+            A(out, "block-modpattern", L("yang", hexs(b"module p {namespace urn:p; prefix p; leaf l {type string {pattern " +
+                                                     yang_dq(b"\\p{Is" + bn + b"}*") + b";}}}")))
+
         # ---------- truncation at every position of small seeds ----------
         small = [("yang", YANG_SEEDS[1]), ("yin", YIN_SEEDS[0][:700]), ("x", XML_SEEDS[0][:300]), ("x", XML_SEEDS[2]), ("j", JSON_SEEDS[1]),
                  ("xp", XPATH_SEEDS[2]), ("xp", XPATH_SEEDS[7]), ("path", PATH_SEEDS[2])]
@@ -570,7 +629,8 @@ class Robust:
         for _ in range(N(500, 20000)):
             p, s = rng.choice(PATTERN_SEEDS)
             lab, m = mutate(rng, p, pats)
-            if 0 in m:
+            if 0 in m or (tier != "thorough" and len(m) > 300):
+                # (a||...|b)* with hundreds of empty alternatives takes seconds in PCRE2 (known finding timeout:pattern:pattern)
                 continue
             if rng.random() < 0.6:
                 A(out, "pattern:" + lab, L("pattern", hexs(m), hexs(s if rng.random() < 0.7 else mutate(rng, s or b"a", pats)[1])))
@@ -610,7 +670,7 @@ class Robust:
         return out
 
     # ---------------------------------------------------------------------------------------------------------------
-    def classify(self, line, out, err):
+    def classify(self, line, out, err, second=False):
         """narrow tag for a failure: sanitizer kind + first libyang function, or post-condition + entry point"""
         f = line.split("\t")
         entry = f[1] if len(f) > 1 else "?"
@@ -687,12 +747,44 @@ class Robust:
             what = "data-%s%s" % ("xml" if f[2] == "x" else "json", "-multi" if (int(f[4], 0) & VAL_MULTI) else "")
         elif entry == "op" and len(f) > 4:
             what = "op-%s-%s" % (f[2], f[3])
+        if first == "dict-strings-left":
+            # what is left in the dictionary is told apart by the error path: class of the error message
+            em = re.search(r" ec=([a-z-]*)", out)
+            what += ":" + (em.group(1)[:40] if em else "-")
+            if entry in ("yang", "yin") and "6d6f756e742d706f696e74" in f[-1]:
+                # the instance of the extension mount-point is what is left, whatever error ended the compilation
+                what = entry + ":ext-mount-point"
         return "post:%s:%s" % (first, what)
+
+    def asan_tag(self, line):
+        """second opinion for a failure the release build cannot name (signal without report, strings left in the
+        dictionary): the same case alone on the ASan+UBSan build; returns the tag derived from its report, or None"""
+        if line in self.second:
+            return self.second[line]
+        tag = None
+        if len(self.second) < 80:
+            try:
+                exe = vlib.build_driver("t_robust", "asan")
+                env = dict(os.environ)
+                env["ASAN_OPTIONS"] = "detect_leaks=1:abort_on_error=1:allocator_may_return_null=1"
+                env["UBSAN_OPTIONS"] = "halt_on_error=1:abort_on_error=1:print_stacktrace=1"
+                p = subprocess.run([exe], input=(line + "\n").encode(), stdout=subprocess.PIPE, stderr=subprocess.PIPE, env=env, timeout=120)
+                so = p.stdout.decode("latin-1")
+                o2 = so.strip() if so.endswith("\n") and so.strip() else "CRASH(%d)" % p.returncode
+                t2 = self.classify(line, o2, p.stderr.decode("latin-1"), second=True)
+                if t2 and t2.split(":")[0] in ("asan", "ubsan", "leak", "uninit", "assert", "stack-overflow"):
+                    tag = t2
+            except (OSError, subprocess.SubprocessError, vlib.BuildError):
+                tag = None
+        self.second[line] = tag
+        return tag
 
     def judge(self, line, out):
         err = getattr(self, "last_err", "")
         if out.startswith("CRASH") or out.startswith("TIMEOUT") or "!" in out or out == "" or out.startswith("?"):
             tag = self.classify(line, out, err)
+            if tag.startswith("crash:") or tag.startswith("post:dict-strings-left:"):
+                tag = self.asan_tag(line) or tag
             # a stack overflow found on the release build carries no function name: match it with the listed finding of
             # the same input shape
             if tag.endswith(":?") and tag.startswith("stack-overflow:"):
